@@ -52,7 +52,6 @@ MCInit ==
   /\ n = [c \in Callers |-> 0]
   /\ lastPost = [c \in Callers |-> -1]
   /\ minNext = [c \in Callers |-> 0]
-  /\ waitAt = [c \in Callers |-> 0]
   /\ hist = IF Record THEN << [a |-> "Init", ctx |-> ctxEnd, start |-> until] >> ELSE << >>
 
 MCNext ==
@@ -61,7 +60,7 @@ MCNext ==
 
 \* exhaustive check: the history does not distinguish states
 StateView == <<now, mult, notBefore, pc, ctxEnd, ctxDone, until, result, lastResp, n,
-               lastPost, minNext, askUntil, waitAt>>
+               lastPost, minNext, askUntil>>
 
 LiveSpec == MCInit /\ [][MCNext]_vars /\ \A c \in Callers : WF_vars(CallerStep(c))
 
@@ -72,7 +71,7 @@ Finish ==
   /\ AllDone /\ Record /\ hist[Len(hist)].a # "End"
   /\ hist' = Append(hist, End)
   /\ UNCHANGED <<now, mult, notBefore, pc, ctxEnd, ctxDone, until, result, lastResp, n,
-                 lastPost, minNext, askUntil, waitAt>>
+                 lastPost, minNext, askUntil>>
 SimResp(c) == IF n[c] >= MaxLen THEN TailResp
               ELSE IF n[c] = MaxLen - 1 /\ ctxEnd[c] = NoEnd
                      THEN RandomElement({r \in SimSet : r.cls \in Terminal})
